@@ -133,7 +133,7 @@ PROPS = {
     "C17": {
         "engines": [{"name": "timepb"}],
         "text": "Lean 4 theorems over all valid timestamps/durations (exactness, normalisation, validity, overflow panic, AddStd agreement, total order) on a wrap-around model of cmp.go. The model is tied to the source twice on every run: (1) tools/go2lean TRANSLATES IsZero, Compare, DurationIsNegative, overflowPanic and Add from support/timepb/cmp.go into Lean definitions (types and constants from go/types; Go's int64/int32 wrap-around, nil dereference = panic) and Properties/C17Src proves that the translated functions ARE the model on all inputs (C17_src_Compare_is_model, C17_src_Add_is_model, by case split + linear arithmetic, independent of how the source spells the computation) and restates the property's clauses about the translated text (C17_src_add_exact, C17_src_add_no_wrap, C17_src_add_overflow_panics, C17_src_compare_chronological); (2) a differential run of the real functions against exact big-integer arithmetic and the model, incl. an exhaustive pass over boundary values derived from the integer constants that occur in the source.",
-        "note": "trusted: Lean kernel, the translator tools/go2lean (go/ast + go/types, ~1000 lines), correspondence sampling, time.Time arithmetic in AddStd (stdlib; outside the translated fragment)",
+        "note": "trusted: Lean kernel, the translator tools/go2lean (go/ast + go/types, ~1700 lines), correspondence sampling, time.Time arithmetic in AddStd (stdlib; outside the translated fragment)",
         "design": "DESIGN.md §3 C17",
     },
     "C18": {
